@@ -11,6 +11,8 @@ package memberlist
 // nodeTimers, incarnation, leave, numNodes, broadcasts.tm, awareness.
 
 import (
+	"sync"
+	"sync/atomic"
 	"bytes"
 	"fmt"
 	"io"
@@ -541,6 +543,82 @@ func vcGen(r *vfRng) vfCase {
 	return c
 }
 
+// two goroutines in real time (a goroutine waiting for a mutex is not durably blocked, so no bubble): the first
+// makes the node deliver a leave event whose callback is slow, the second meanwhile feeds a claim that
+// produces another event.  Observation: did a callback start while another was running?
+type vcSlowEvents struct {
+	depth   atomic.Int32
+	overlap atomic.Bool
+	entered chan struct{}
+}
+
+func (e *vcSlowEvents) enter(slow bool) {
+	if e.depth.Add(1) > 1 {
+		e.overlap.Store(true)
+	}
+	if slow {
+		select {
+		case e.entered <- struct{}{}:
+		default:
+		}
+		time.Sleep(40 * time.Millisecond)
+	}
+	e.depth.Add(-1)
+}
+func (e *vcSlowEvents) NotifyJoin(n *Node)   { e.enter(false) }
+func (e *vcSlowEvents) NotifyLeave(n *Node)  { e.enter(true) }
+func (e *vcSlowEvents) NotifyUpdate(n *Node) { e.enter(false) }
+
+func vcSerial(t *testing.T, c *vfCase, st *vfStats) {
+	conf := DefaultLANConfig()
+	conf.Name = "self"
+	conf.Transport = &vcTr{make(chan *Packet), make(chan net.Conn)}
+	conf.Logger = log.New(io.Discard, "", 0)
+	ev := &vcSlowEvents{entered: make(chan struct{}, 1)}
+	conf.Events = ev
+	m, err := newMemberlist(conf)
+	if err != nil {
+		t.Fatal(err)
+	}
+	if err := m.setAlive(); err != nil {
+		t.Fatal(err)
+	}
+	vsn := []uint8{ProtocolVersionMin, ProtocolVersionMax, ProtocolVersion2Compatible, 0, 0, 0}
+	m.aliveNode(&alive{Incarnation: 1, Node: "b", Addr: []byte{10, 0, 0, 2}, Port: 7946, Vsn: vsn}, nil, false)
+	var wg sync.WaitGroup
+	wg.Add(2)
+	go func() {
+		defer wg.Done()
+		switch c.Ops[0][0] {
+		case 0:
+			m.deadNode(&dead{Incarnation: 1, Node: "b", From: "x"})
+		case 1:
+			m.deadNode(&dead{Incarnation: 1, Node: "b", From: "b"})
+		default:
+			m.mergeState([]pushNodeState{{Name: "b", Addr: []byte{10, 0, 0, 2}, Port: 7946, Incarnation: 1, State: StateLeft, Vsn: vsn}})
+		}
+	}()
+	go func() {
+		defer wg.Done()
+		select {
+		case <-ev.entered:
+		case <-time.After(2 * time.Second):
+		}
+		m.aliveNode(&alive{Incarnation: 1, Node: "c", Addr: []byte{10, 0, 0, 3}, Port: 7946, Vsn: vsn}, nil, false)
+	}()
+	wg.Wait()
+	c.Obs = [][]int64{{vcB(ev.overlap.Load())}}
+	st.Ops += 2
+	st.OpHist["concurrent_callbacks"]++
+}
+
+func vcB(b bool) int64 {
+	if b {
+		return 1
+	}
+	return 0
+}
+
 func TestVfCore(t *testing.T) {
 	st := vfNewStats("core")
 	st.Rule = "random histories of alive/handleAlive/suspect/dead/push-pull entry/advance/reap/leave(+halves)/update on one real node in a synctest bubble; small value domains (5 names, 6+2 addresses, incarnations {0..4, 2^31, 2^32-2, 2^32-1}); distinct = distinct (op kind, state changed?, observation width, health score) tuples"
@@ -556,11 +634,20 @@ func TestVfCore(t *testing.T) {
 			cases = append(cases, vcGen(r))
 		}
 	}
+	if !replay && (vfPropEnv() == "" || vfPropEnv() == "C07") {
+		for k := 0; k < 3; k++ {
+			cases = append(cases, vfCase{Tag: "callbacks are serialised", Cfg: []int64{99}, Ops: [][]int64{{int64(k)}}})
+		}
+	}
 	for i := range cases {
+		if len(cases[i].Cfg) == 1 && cases[i].Cfg[0] == 99 {
+			vcSerial(t, &cases[i], st)
+			continue
+		}
 		synctest.Test(t, func(t *testing.T) { vcRun(t, &cases[i], st) })
 	}
 	// the property whose monitor decides (code range / 10); 0 = all
-	sel := map[string]string{"C01": "11", "C02": "12", "C07": "13", "C08": "14", "C18": "15", "C06": "16", "C09": "17"}[os.Getenv("VF_PROP")]
+	sel := map[string]string{"C01": "11", "C02": "12", "C07": "13", "C08": "14", "C18": "15", "C06": "16", "C09": "17", "C03": "11"}[os.Getenv("VF_PROP")]
 	if sel == "" {
 		sel = "0"
 	}
